@@ -1,7 +1,11 @@
 #!/bin/sh
 # Build the whole Coq development from files on disk (offline).  Full .vo build.
+# _CoqProject is regenerated from the files present, so adding a .v file needs no registration.
 set -e
 cd "$(dirname "$0")/coq"
 mkdir -p gen ../build
+(cd .. && PYTHONHASHSEED=0 /venv/bin/python -m harness.translate) || true
+/venv/bin/python ../harness/lib/coqproject.py
 coq_makefile -f _CoqProject -o Makefile >/dev/null
-timeout 3000 make -j16 2>&1 | tail -5
+# -k: a file that fails does not stop the others; each check rebuilds and reports its own targets
+timeout 3000 make -k -j16 2>&1 | tail -15 || true
